@@ -52,12 +52,20 @@ def coq_make(targets, timeout=1500):
         return rc == 0, out
 
 
-def cargo_build(profile):
+BIN_OF = {"C01": "h_c01", "C02": "h_c02", "C17": "h_c02", "C03": "h_c03", "C04": "h_c04", "C05": "h_c05", "C06": "h_c06",
+          "C07": "h_c07", "C08": "h_c08", "C09": "h_c08", "C10": "h_c10", "C11": "h_c11", "C12": "h_c12", "C20": "h_c12",
+          "C13": "h_c13", "C14": "h_c14", "C15": "h_c15", "C16": "h_c16", "C18": "h_c18", "C19": "h_c19"}
+
+
+def cargo_build(profile, pid=None):
+    """Builds the harness binary serving pid (all binaries when pid is None). One binary per property family:
+    a change to /repo that stops one family's glue from compiling cannot raise an alarm for the others."""
     with Lock(".cargo.lock"):
         lock_src = "/repo/Cargo.lock"
         if os.path.exists(lock_src):
             shutil.copy(lock_src, os.path.join(HARNESS, "Cargo.lock"))
         cmd = ["cargo", "build", "--offline", "--quiet"] + (["--release"] if profile == "release" else [])
+        cmd += (["--bin", BIN_OF[pid]] if pid else ["--bins", "--keep-going"])
         rc, out = sh(cmd, cwd=HARNESS, timeout=1500)
         if rc and os.path.exists(os.path.join(HARNESS, "Cargo.lock")):
             # a lock file copied from /repo may not cover the harness's own needs; let cargo extend it offline
@@ -66,8 +74,8 @@ def cargo_build(profile):
         return rc == 0, out
 
 
-def harness_bin(profile):
-    return os.path.join(TARGET, profile if profile == "release" else "debug", "harness")
+def harness_bin(profile, pid):
+    return os.path.join(TARGET, profile if profile == "release" else "debug", BIN_OF[pid])
 
 
 def scan_sources():
@@ -159,7 +167,7 @@ def evaluate(casedir, extra=()):
 
 def harness_gen(pid, tier, seed, casedir, profile="release"):
     shutil.rmtree(casedir, ignore_errors=True); os.makedirs(casedir)
-    rc, out = sh([harness_bin(profile), "gen", pid, tier, str(seed), casedir], timeout=1500)
+    rc, out = sh([harness_bin(profile, pid), "gen", pid, tier, str(seed), casedir], timeout=1500)
     return rc == 0, out
 
 
@@ -167,7 +175,7 @@ def harness_exec(pid, lines, casedir, profile="release"):
     shutil.rmtree(casedir, ignore_errors=True); os.makedirs(casedir)
     sf = os.path.join(casedir, "in.txt")
     open(sf, "w").write("\n".join(lines) + "\n")
-    rc, out = sh([harness_bin(profile), "exec", pid, sf, casedir], timeout=1500)
+    rc, out = sh([harness_bin(profile, pid), "exec", pid, sf, casedir], timeout=1500)
     return rc == 0, out
 
 
@@ -262,10 +270,12 @@ def setup():
     print(log[-3000:])
     if not ok:
         print("SETUP: warning: some Coq files did not build; the affected checks will report it")
-    for prof in ("release", "debug"):
-        ok, log = cargo_build(prof)
-        if not ok:
-            print(log[-3000:]); print("SETUP: cargo build (%s) failed" % prof); return 1
+    ok, log = cargo_build("release")
+    if not ok:
+        print(log[-3000:]); print("SETUP: warning: some harness binaries did not build; the affected checks will report it")
+    ok, log = cargo_build("debug", "C04")
+    if not ok:
+        print(log[-3000:]); print("SETUP: warning: debug build of the C04 harness failed")
     print("setup ok in %.0fs" % (time.time() - t0))
     return 0
 
@@ -322,7 +332,7 @@ def decide(pid, tier, seed, replay=None):
     known_lines = []
     if check_ok:
         for prof in profiles:
-            ok, log = cargo_build(prof)
+            ok, log = cargo_build(prof, pid)
             if not ok:
                 violations.append(("harness-build", "the harness no longer builds against /repo (%s): %s" % (prof, log[-1500:]), None, False))
                 continue
